@@ -266,6 +266,7 @@ func decodeValue(dec valueDecoder, param string, sm *openapi3.SerializationMetho
 		var value any
 		var err error
 		var merged map[string]any
+		var last any
 		for _, sr := range schema.Value.AllOf {
 			var f bool
 			value, f, err = decodeValue(dec, param, sm, sr, required)
@@ -283,12 +284,17 @@ func decodeValue(dec valueDecoder, param string, sm *openapi3.SerializationMetho
 				}
 				continue
 			}
-			if value == nil {
-				break
+			if value != nil {
+				// a member that says nothing about the type (constraints only) decodes nothing: the value is what
+				// the other members made of the text
+				last = value
 			}
 		}
 		if err == nil && len(merged) > 0 {
 			return merged, found, nil
+		}
+		if err == nil {
+			value = last
 		}
 		if noValueDecoded(value) {
 			value = nil
@@ -672,7 +678,13 @@ func (d *urlValuesDecoder) DecodeObject(param string, sm *openapi3.Serialization
 			}
 			if sm.Explode {
 				props := make(map[string]string)
+				closed := schema.Value.AdditionalProperties.Has != nil && !*schema.Value.AdditionalProperties.Has
 				for key, values := range params {
+					if _, declared := schema.Value.Properties[key]; closed && !declared {
+						// exploded, the properties are query keys like any other parameter's:
+						// an undeclared key is not known to belong to this object
+						continue
+					}
 					props[key] = values[0]
 				}
 				return props, nil
@@ -1080,6 +1092,15 @@ func buildResObj(params map[string]any, parentKeys []string, key string, schema 
 			}
 			if r != nil {
 				resultMap[k] = r
+			}
+		}
+		if ap := schema.Value.AdditionalProperties.Has; additPropsSchema == nil && ap != nil && !*ap {
+			// a closed object: what was sent under a name the schema does not declare belongs to the value all the
+			// same (as it came: there is nothing to convert it to), so that validation can refuse it
+			for k, v := range objectParams {
+				if _, declared := schema.Value.Properties[k]; !declared {
+					resultMap[k] = v
+				}
 			}
 		}
 		if additPropsSchema != nil {
